@@ -117,6 +117,16 @@ func Check18(c Case18, r *core.Rec) {
 			r.Known("KF-C18-nested-dots", "%s: %s -> %s but %s -> %s", c.Profile, quote(a), quote(ca), quote(b), quote(cb))
 			return
 		}
+		// both recorded findings at once: with single-level dots the spellings still differ, but only
+		// by the '#' of an empty fragment that this profile keeps (attributed to both; both must be open)
+		if !c.Profile.removesFragment() && !c.Web.HasFrag {
+			strip := func(s string) string { return strings.TrimSuffix(s, "#") }
+			if strip(a2) == strip(b2) && strip(a2) == strip(cp) {
+				r.Known("KF-C18-nested-dots", "%s: %s -> %s but %s -> %s", c.Profile, quote(a), quote(ca), quote(b), quote(cb))
+				r.Known("KF-C18-empty-fragment", "%s: %s -> %s but %s -> %s", c.Profile, quote(a), quote(ca), quote(b), quote(cb))
+				return
+			}
+		}
 	}
 	r.Failf("%s: equivalent spellings canonicalize differently: %s -> %s ; %s -> %s ; plain %s -> %s", c.Profile, quote(a), quote(ca), quote(b), quote(cb), quote(plain), quote(cp))
 }
